@@ -45,16 +45,17 @@ unsigned long w_n, w_cap;
 /* vg_n1 = exact length, vg_n2 = size of the object */
 spif_charptr_t FN(spif_charptr_t str)
 __CPROVER_requires(VCSTR_IN_BUF_AT(str, vg_n1, vg_n2, vg_j))
+__CPROVER_requires(!(vg_k < vg_n1) || str[vg_k] != 0)        /* exactness, second instantiation point */
 __CPROVER_assigns(__CPROVER_object_whole(str), vg_exit)
 __CPROVER_ensures(__CPROVER_return_value == str)
-/* the loop stopped at the true end */
+/* the loop stopped at the true end (vg_j is arbitrary: see VCSTR_EXACT_AT in strings.h) */
 __CPROVER_ensures(vg_exit != vg_j || vg_exit == vg_n1)
 /* per character, for every index below the length */
-__CPROVER_ensures(!(vg_k < vg_n1) || str[vg_k] == REF(__CPROVER_old(str[vg_k])))
+__CPROVER_ensures(vg_exit != vg_j || !(vg_k < vg_n1) || str[vg_k] == REF(__CPROVER_old(str[vg_k])))
 /* terminator and everything behind it untouched */
 __CPROVER_ensures(!(vg_k >= vg_n1) || str[vg_k] == __CPROVER_old(str[vg_k]))
 /* length unchanged: still terminated at n (clause above with vg_k = n) and no NUL appears before n */
-__CPROVER_ensures(!(vg_j < vg_n1) || str[vg_j] != 0)
+__CPROVER_ensures(vg_exit != vg_j || !(vg_k < vg_n1) || str[vg_k] != 0)
 ;
 void harness(void)
 {
